@@ -15,6 +15,8 @@ CONSTANTS
     MaxFaults = 0
     MaxCrashes = 0
     MaxReopens = 1
+    MaxFmtFail = 0
+    FmtFails = {}
     Ticks = {"same", "later", "next", "back"}
     RetryTicks = {"same", "next"}
     Phantoms = {0, 3}
